@@ -37,16 +37,23 @@ from vlib import Stream, import_freephil, canon, obj_sx
 CODE_FIXED = False
 
 
-def _f12_listed_open():
+def _listed_open(fid):
+    """is the finding an open entry of known_findings.json (then match_finding classifies its failures
+    and the histories stay in the domain; otherwise they are kept out of in_domain)"""
     try:
         data = json.load(open(vlib.V + "/known_findings.json"))
-        return any(f.get("property") == "C20" and f.get("id") == "F12" and f.get("status") == "open"
+        return any(f.get("property") == "C20" and f.get("id") == fid and f.get("status") == "open"
                    for f in data.get("findings", []))
     except Exception:  # noqa
         return False
 
 
-F12_LISTED_OPEN = _f12_listed_open()
+F12_LISTED_OPEN = _listed_open("F12")
+F17_LISTED_OPEN = _listed_open("F17")
+# F17 (found by this check): scope.format emits no template for a .multiple DEFINITION, and push_state copies the
+# working tree with working_phil.fetch(), which takes the first occurrence as the master's template: after
+# update_from_python(p) with p.m == [3, 5], push_state(); pop_state() restores m == [5].  Set to True once repaired.
+F17_FIXED = False
 
 # ----------------------------------------------------------------------------- recording of library calls
 class _Log:
@@ -377,6 +384,27 @@ def risky_f12(ops):
     return None
 
 
+def has_multi_def(case):
+    return any(p[3] for p in case["P"])
+
+
+def risky_f17(case):
+    """Signature of finding F17 on the case alone: the master has a .multiple definition and the history has an
+    update_from_python, later a push_state / update_from_python (both stack working_phil.fetch()), later a pop_state."""
+    if not has_multi_def(case):
+        return False
+    stage = 0
+    for op in case["ops"]:
+        k = op[0]
+        if stage == 0 and k in ("ufp_mut", "ufp_none"):
+            stage = 1
+        elif stage == 1 and k in ("push", "ufp_mut", "ufp_none"):
+            stage = 2
+        elif stage == 2 and k == "pop":
+            return True
+    return False
+
+
 # ----------------------------------------------------------------------------- the stream
 class Histories(Stream):
     name = "histories"
@@ -415,6 +443,9 @@ class Histories(Stream):
              "ops": [["update", "m = 1\nm = 2\ng { k = 5 }\ng { k = 6 }", None, True], ["get"], ["update", "m = 7", None, True],
                      ["update", "m = 7", None, True], ["get"], ["ufp_mut", ["a"], 9], ["get"], ["pop"], ["update", "a = 3", None, True],
                      ["get"], ["lookup", "g.k"], ["lookup", "m"]]},
+            # F17 witness: push_state after update_from_python loses the first value of a .multiple definition
+            {"m": "m = None\n  .type = int\n  .multiple = True\n", "P": [["m", "int", [], True, False]], "S": [], "v": True,
+             "ops": [["update", "m = 3\nm = 5", None, True], ["get"], ["ufp_mut", ["m"], [3, 5]], ["push"], ["pop"], ["get"]]},
             # refused merge after the multiples were deleted (outside the domain: the edit is not valid)
             {"m": m2, "P": P2, "S": S2, "v": False,
              "ops": [["update", "m = 7", None, True], ["get"], ["merge_s", "m = 3\ns.c = zzz", None, True], ["get"]]},
@@ -674,9 +705,9 @@ class Histories(Stream):
         xs = o["x"]
         if xs[0]["dead"]:
             return (-1, "lookup", "after set-up: paths %r do not look up to the live objects" % (xs[0]["dead"],))
-        shadow = []           # texts at the pushes
+        shadow = []           # (text, extraction) at the pushes
         prev_depth = 0
-        prev_text = xs[0]["text"]
+        prev_text, prev_ext = xs[0]["text"], xs[0]["ext"]
         ops = case["ops"]
         for i, (op, st) in enumerate(zip(ops, o["steps"])):
             out, wid, stack, looks = st
@@ -690,16 +721,17 @@ class Histories(Stream):
                 return (i, "lookup", "lookup: after step %d %r paths %r do not look up to the live object(s) of working_phil"
                         % (i, op, x["dead"]))
             if depth == prev_depth + 1:
-                shadow.append(prev_text)
+                shadow.append((prev_text, prev_ext))
             elif depth == prev_depth - 1:
                 want = shadow.pop() if shadow else None
-                if op[0] == "pop" and out == ["ret", "1"] and want is not None and x["text"] != want:
-                    return (i, "pop", "pop: step %d pop_state() restored %r, at the matching push it was %r" % (i, x["text"], want))
+                if op[0] == "pop" and out == ["ret", "1"] and want is not None and (x["text"], x["ext"]) != want:
+                    return (i, "pop", "pop: step %d pop_state() restored %r (extracting to %s), at the matching push it was %r (%s)"
+                            % (i, x["text"], x["ext"][1], want[0], want[1][1]))
             if (op[0] == "update" and i > 0 and ops[i - 1] == op and out == ["none"] and o["steps"][i - 1][0] == ["none"]
                     and x["text"] != prev_text):
                 return (i, "twice", "twice: step %d the same update applied again changed working_phil: %r -> %r"
                         % (i, prev_text, x["text"]))
-            prev_depth, prev_text = depth, x["text"]
+            prev_depth, prev_text, prev_ext = depth, x["text"], x["ext"]
         return None
 
     def prop(self, case, o):
@@ -711,6 +743,8 @@ class Histories(Stream):
             return False          # refused / out-of-domain edits, reset_scope, erase_scope: correspondence only
         if not CODE_FIXED and not F12_LISTED_OPEN and risky_f12(case["ops"]) is not None:
             return False          # finding F12 (stale cache after pop_state/set_state), see match_finding
+        if not F17_FIXED and not F17_LISTED_OPEN and risky_f17(case):
+            return False          # finding F17 (push_state after update_from_python loses a .multiple definition's first value)
         return True
 
     def key(self, case, o):
@@ -752,9 +786,19 @@ class Histories(Stream):
 def match_finding(finding, failure):
     """F12: the failing step is a get_python_object after a successful pop_state/set_state with no
     update/merge_phil in between (stale cache after pop_state/set_state)."""
+    what = failure.get("what", "")
+    if finding.get("id") == "F17":
+        # pop_state restored something else than what was current at the matching push, the master has a
+        # .multiple definition and an update_from_python precedes (working tree = master.format(...) was stacked)
+        if not what.startswith("pop:") or not has_multi_def(failure["case"]):
+            return False
+        try:
+            k = int(what.split()[2])
+        except Exception:  # noqa
+            return False
+        return any(op[0] in ("ufp_mut", "ufp_none") for op in failure["case"]["ops"][:k])
     if finding.get("id") != "F12":
         return False
-    what = failure.get("what", "")
     if not what.startswith("handout:"):
         return False
     try:
